@@ -416,7 +416,9 @@ pub fn supervisor_main<P: Prop>(o: RunOpts) -> i32 {
   let mut agg = Agg::default();
   let timeout = Duration::from_millis(P::timeout_ms(o.tier));
   let mut respawns = 0u32;
-  let max_respawns = 400;
+  // (a worker is respawned after every case that hangs or kills it; listed findings of that kind — the C06 tuple hang, the C07 set-constant
+  // hang — are met in proportion to the budget, so the cap scales with it)
+  let max_respawns = 400u32.max(P::budget(o.tier) / 40);
 
   let replays_for_respawn = replays.clone();
   let handle_death = |w: &mut WState, agg: &mut Agg, what: &str, widx: usize, tx: &mpsc::Sender<Msg>, respawns: &mut u32| {
